@@ -283,6 +283,21 @@ func c14Check(cc *run.Case, ns namedStrat, class string, n int) bool {
 			late = true
 		}
 	}
+	// "Late" is concluded from unanimity: no probe at any position moved the
+	// column on the row of the change. That is only evidence on series in
+	// general position. Where every row looks like the next one (flat, halted,
+	// tied, limit-run markets) a formula that ratchets - a band that only ever
+	// tightens, an extreme that has to be beaten - legitimately ignores every
+	// probe on its own row, at every position alike. "Too early" above is
+	// sound on any series and stays in force for all classes.
+	switch class {
+	case gen.Walk, gen.Walk2, gen.Dyadic, gen.Spike, "tiny", "huge":
+	default:
+		if late {
+			cc.Count("late_verdicts_not_drawn_on_a_market_without_movement", 1)
+		}
+		late = false
+	}
 	if late {
 		for p := lo; p < n; p++ {
 			for kind := 0; kind < 4; kind++ {
